@@ -134,6 +134,10 @@ def _case(draw: Any, pid: str, max_depth: int) -> dict[str, Any]:
         "zeros": draw(st.lists(st.booleans(), min_size=NSTREAMS, max_size=NSTREAMS)) if pid == "C13"
         else [False] * NSTREAMS,
         "global_zero": draw(st.booleans()) if pid == "C13" else False,
+        # staggered start: stream i first delivers this many earlier samples (stamped before tick 0) whose
+        # values are taken from the list; the engine has to skip them when it synchronises
+        "early": draw(st.lists(st.lists(_values(pid), min_size=0, max_size=2), min_size=NSTREAMS, max_size=NSTREAMS))
+        if draw(st.integers(0, 2)) == 0 else [[] for _ in range(NSTREAMS)],
     }
 
 
@@ -503,6 +507,13 @@ def run_case(case: Any, pid: str) -> Verdict:
     async def scenario() -> None:
         rig = _Rig()
         {"string": _build_string, "api": _build_api, "builder": _build_builder, "api3": _build_api3}[route](case, rig)
+        early = case.get("early") or [[] for _ in range(NSTREAMS)]
+        if route != "api3":
+            # earlier samples, delivered before the consumer starts (they sit in the input receivers)
+            for i in sorted(rig.senders):
+                for n, val in enumerate(early[i]):
+                    ts_early = world.T0 - timedelta(seconds=len(early[i]) - n)
+                    await rig.senders[i].send(Sample(ts_early, _sample_value(val)))
         rx = rig.engine.new_receiver()
         await world.settle(2)
         for k, row in enumerate(case["rows"]):
@@ -518,9 +529,11 @@ def run_case(case: Any, pid: str) -> Verdict:
             got = []
             while True:
                 try:
-                    got.append(await asyncio.wait_for(rx.receive(), timeout=0.001))
+                    sample = await asyncio.wait_for(rx.receive(), timeout=0.001)
                 except asyncio.TimeoutError:
                     break
+                if sample.timestamp >= world.T0:  # samples for the staggered prefix are not judged
+                    got.append(sample)
             outputs.append((ts, got))
 
     try:
@@ -532,6 +545,11 @@ def run_case(case: Any, pid: str) -> Verdict:
     interaction = _interaction(tree)
     if interaction:
         v.labels.add("precedence_interaction")
+    if any(len(case.get("early", [[]] * NSTREAMS)[i]) for i in used) and route != "api3":
+        v.labels.add("staggered_start")
+        if len({len(case["early"][i]) for i in used}) > 1 and any(
+                isinstance(x, str) for i in used for x in case["early"][i]):
+            v.labels.add("missing_value_in_skipped_sample")
     rich = _has(tree, {"max", "min", "cons", "prod", "clip"})
     if _has(tree, {"clip"}):
         v.labels.add("has_clipper")
